@@ -115,6 +115,7 @@ impl ClientPlan {
                 frame_pause: None,
                 status_codes: 0,
                 intermediate_timeout: None,
+                script_order: 0,
             },
             init: ConfigureOutcome::plain(),
             ops,
